@@ -142,8 +142,8 @@ func buildBundle(rng *rand.Rand, loader *ctxload.Loader, kind verifiable.ProofTy
 
 	credBody := func(issuer string) map[string]any {
 		return map[string]any{
-			"id": fmt.Sprintf("urn:uuid:%08x-0000-4000-8000-%012x", rng.Uint32(), rng.Int63n(1<<48)),
-			"@context": []any{ctxload.URLCredentialsV1, ctxload.URLIden3Proofs, ctxload.URLKYCv3},
+			"id":             fmt.Sprintf("urn:uuid:%08x-0000-4000-8000-%012x", rng.Uint32(), rng.Int63n(1<<48)),
+			"@context":       []any{ctxload.URLCredentialsV1, ctxload.URLIden3Proofs, ctxload.URLKYCv3},
 			"type":           []any{"VerifiableCredential", "KYCAgeCredential"},
 			"expirationDate": "2361-03-21T21:14:48+02:00",
 			"issuanceDate":   "2023-12-21T16:35:46.737547+02:00",
